@@ -184,6 +184,7 @@ type event struct {
 
 type flushRec struct {
 	key      string
+	entry    string // identity of the dirty-table entry being flushed
 	beg, end int
 }
 
@@ -205,6 +206,10 @@ type world struct {
 	nDone   int  // client threads that returned
 	nExit   int  // client + flusher threads that returned
 	evicted bool // a left memory by LRU eviction at some point (vacuity)
+	// dirtyEvictable: at the return of a metadata update or of a flush, key a had an entry in the
+	// flusher's dirty table while it was evictable in the memory store (trace pattern of root cause 2)
+	dirtyEvictable bool
+	aborted        map[string]int // entry identity -> return time of the Delete(a) that aborted it
 }
 
 var idleObj = new(int) // flusher threads wait here for work
@@ -317,7 +322,14 @@ func (w *world) do(thread, op string) *event {
 	case op == "delmd":
 		e.err = w.st.DeleteMetadata(keyA, mdSuffix)
 	case op == "delete":
+		entry := w.st.VerifEntryID(keyA) // structural operations are sequential: this is the entry Delete aborts
 		e.err = w.st.Delete(keyA)
+		if e.err == nil && entry != "" && thread != "end" {
+			if w.aborted == nil {
+				w.aborted = map[string]int{}
+			}
+			w.aborted[entry] = w.clock + 1 // = e.ret
+		}
 	case op == "has":
 		e.has, _ = w.st.Has(keyA)
 	case op == "read":
@@ -356,6 +368,9 @@ func (w *world) do(thread, op string) *event {
 		w.herr("unknown op %q", op)
 	}
 	e.ret = w.tick()
+	if mdOp(op) && thread != "end" {
+		w.sampleDirtyEvictable()
+	}
 	w.log = append(w.log, e)
 	return e
 }
@@ -413,14 +428,23 @@ func (w *world) threadDone(client bool) {
 	}
 }
 
+// sampleDirtyEvictable records whether a is tracked as dirty by the flusher while the memory store may evict it.
+func (w *world) sampleDirtyEvictable() {
+	present, _, banned, _ := w.mem.VerifBlob(keyA)
+	if present && !banned && w.listHas(w.st.VerifDirty(), keyA) {
+		w.dirtyEvictable = true
+	}
+}
+
 func (w *world) flushStep() bool {
 	var rec *flushRec
-	ok := w.st.VerifFlushStep(func(key string) {
-		rec = &flushRec{key: key, beg: w.tick()}
+	ok := w.st.VerifFlushStep(func(key, entry string) {
+		rec = &flushRec{key: key, entry: entry, beg: w.tick()}
 		w.flushes = append(w.flushes, rec)
 	})
 	if rec != nil {
 		rec.end = w.tick()
+		w.sampleDirtyEvictable()
 	}
 	return ok
 }
@@ -752,6 +776,60 @@ func (w *world) endState() {
 	}
 }
 
+// Trace-derived root-cause tags (see FINDINGS.md). They are computed from the
+// client/flusher event trace of the execution, not from the violated clause.
+const (
+	tagStale   = "[stale flush entry after re-create]"
+	tagTwice   = "[entry taken twice from the queue after re-create]"
+	tagMDUnban = "[md update raced with deferred unban]"
+)
+
+// tag returns the known race pattern the execution exhibits, or "".
+//
+//   - tagStale: a flusher thread flushed a dirty-table entry (identified by pointer)
+//     that a Delete(a) had aborted, and the following Create(a) returned before that
+//     flush returned (where it removes "the" entry of the key and lifts the ban).
+//   - tagTwice: after a Delete(a) aborted an entry, two flushes were handed the same
+//     (new) entry: the queue still held the key of the aborted entry (the queue holds
+//     keys), so the entry of the re-created blob was dequeued twice.
+//   - tagMDUnban: when a SetMetadata/DeleteMetadata or a flush returned, a was in the
+//     flusher's dirty table and at the same time evictable in the memory store, i.e.
+//     the update's eviction ban was taken away by the (deferred) unban of a flush.
+func (w *world) tag() string {
+	for _, f := range w.flushes {
+		dret, stale := w.aborted[f.entry]
+		if !stale {
+			continue
+		}
+		for _, c := range w.log {
+			if c.op == "create" && c.err == nil && c.thread != "end" && c.inv > dret && c.ret < f.end {
+				return tagStale
+			}
+		}
+	}
+	for i, f := range w.flushes {
+		for _, g := range w.flushes[:i] {
+			if f.entry == g.entry && len(w.aborted) > 0 {
+				return tagTwice
+			}
+		}
+	}
+	if w.dirtyEvictable {
+		return tagMDUnban
+	}
+	return ""
+}
+
+// fingerprint names the failure class of a violating execution:
+// "<scenario>: <first violated clause> <root-cause tag, if any>".
+func (w *world) fingerprint() string {
+	fp := w.sc.name + ": " + strings.SplitN(w.vio[0], " :: ", 2)[0]
+	if t := w.tag(); t != "" {
+		fp += " " + t
+	}
+	return fp
+}
+
 // overlapped reports whether some flush ran concurrently with a client operation.
 func (w *world) overlapped() bool {
 	for _, f := range w.flushes {
@@ -854,10 +932,12 @@ func harness(sc scenario, fine bool) *vrt.Harness {
 			w.trace(traceOut)
 		}
 		if len(w.harness) > 0 {
-			return obs, "HARNESS: " + strings.Join(w.harness, "; ")
+			return obs + " HARNESS{" + w.harness[0] + "}", "HARNESS: " + strings.Join(w.harness, "; ")
 		}
 		if len(w.vio) > 0 {
-			return obs, strings.Join(w.vio, "\n")
+			// the fingerprint is part of the observation: outcome counts are merged without a cap,
+			// so the complete set of fingerprints of an exploration can be read from them
+			return obs + " VIO{" + w.fingerprint() + "}", strings.Join(w.vio, "\n")
 		}
 		return obs, ""
 	}}
@@ -951,22 +1031,49 @@ func main() {
 		if min := map[bool]int{false: 20, true: 5}[run.Thorough()]; maxDur < min {
 			maxDur = min
 		}
-		res := rep.VRT(run, h, bound, evid.Workers(), maxDur, func(v vrt.Violation) string {
+		fpOf := func(v vrt.Violation) string {
 			if strings.HasPrefix(v.Msg, "HARNESS: ") {
 				run.Fatal(fmt.Errorf("%s schedule %v: %s", h.Name, v.Choices, v.Msg))
 			}
-			first := strings.SplitN(v.Msg, "\n", 2)[0]
-			switch {
-			case strings.HasPrefix(v.Msg, "panic: "):
-				if len(first) > 120 {
-					first = first[:120]
-				}
-				return sc.family + ": " + first
-			case v.Deadlock && !strings.Contains(first, " :: "):
-				return sc.family + ": deadlock " + strings.Join(stripThreads(first), ",")
+			return violationFP(sc, v.Msg, v.Obs, v.Deadlock)
+		}
+		res := rep.VRT(run, h, bound, evid.Workers(), maxDur, fpOf)
+		// rep.VRT reports at most 20 failing executions per exploration (5 per shard job); the complete
+		// set of fingerprints is in the outcome table. Report the ones that were crowded out as well,
+		// with a schedule found by a small in-process search (helper below) where that is quick.
+		reported := map[string]bool{}
+		for _, v := range res.Violations {
+			reported[fpOf(v)] = true
+		}
+		var missing []string
+		for k := range res.Outcomes {
+			if m := harnessRe.FindStringSubmatch(k); m != nil {
+				run.Fatal(fmt.Errorf("%s: %s", h.Name, m[1]))
 			}
-			return sc.family + ": " + strings.SplitN(first, " :: ", 2)[0]
-		})
+			fp := ""
+			if m := vioRe.FindStringSubmatch(k); m != nil {
+				fp = m[1]
+			} else if strings.HasPrefix(k, "DEADLOCK ") {
+				fp = violationFP(sc, "deadlock: "+strings.TrimPrefix(k, "DEADLOCK "), "", true)
+			} else if k == "PANIC" && !reportedPanic(reported) {
+				fp = sc.name + ": panic (schedule not captured)"
+			}
+			if fp != "" && !reported[fp] {
+				reported[fp] = true
+				missing = append(missing, fp)
+			}
+		}
+		sort.Strings(missing)
+		for _, fp := range missing {
+			fp := fp
+			v := vrt.Violation{Harness: h.Name, Msg: "schedule not captured (fingerprint taken from the outcome table)", Obs: fp}
+			if ch, obs, msg, ok := findSchedule(h, bound, 20*time.Second, func(x *vrt.Exec, obs, vio string) bool {
+				return violationFP(sc, vioMsg(x, vio), obs, x.Deadlock) == fp
+			}); ok {
+				v.Choices, v.Obs, v.Msg = ch, obs, msg
+			}
+			run.Violation(fp, v)
+		}
 		ovl, evict := 0, 0
 		for k, n := range res.Outcomes {
 			if strings.Contains(k, "ovl=true") {
@@ -989,6 +1096,103 @@ func main() {
 		run.Fatal(errors.New("vacuous: no execution had a flush step overlapping a client operation"))
 	}
 	run.Finish()
+}
+
+var vioRe = regexp.MustCompile(`VIO\{(.*)\}$`)
+var harnessRe = regexp.MustCompile(`HARNESS\{(.*)\}$`)
+
+// violationFP maps a failing execution to its fingerprint.
+func violationFP(sc scenario, msg, obs string, deadlock bool) string {
+	if m := vioRe.FindStringSubmatch(obs); m != nil {
+		return m[1]
+	}
+	first := strings.SplitN(msg, "\n", 2)[0]
+	switch {
+	case strings.HasPrefix(msg, "panic: "):
+		if len(first) > 120 {
+			first = first[:120]
+		}
+		return sc.name + ": " + first
+	case deadlock:
+		return sc.name + ": deadlock " + strings.Join(stripThreads(first), ",")
+	}
+	return sc.name + ": " + strings.SplitN(first, " :: ", 2)[0]
+}
+
+func reportedPanic(reported map[string]bool) bool {
+	for fp := range reported {
+		if strings.Contains(fp, ": panic: ") {
+			return true
+		}
+	}
+	return false
+}
+
+// vioMsg is the violation message the explorer derives from an execution.
+func vioMsg(x *vrt.Exec, vio string) string {
+	switch {
+	case x.Panic != "":
+		return "panic: " + x.Panic
+	case x.Deadlock && vio == "":
+		return "deadlock: " + strings.Join(x.Blocked, ",")
+	}
+	return vio
+}
+
+// findSchedule is a helper the engine does not offer: a preemption-bounded DFS
+// (same successor rule and cost accounting as vrt's explorer, bounds 0..bound in
+// turn so that the schedule found needs as few preemptions as possible) that stops
+// at the first execution accepted by want. In-process, time-capped.
+func findSchedule(h *vrt.Harness, bound int, maxDur time.Duration, want func(x *vrt.Exec, obs, vio string) bool) (choices []int, obs, msg string, found bool) {
+	deadline := time.Now().Add(maxDur)
+	var rec func(prefix []int, b int) bool
+	rec = func(prefix []int, b int) bool {
+		if time.Now().After(deadline) {
+			return false
+		}
+		x, o, v := vrt.Replay(h, prefix)
+		if x.Diverged != "" {
+			return false
+		}
+		if want(x, o, v) {
+			ch := x.Choices()
+			for len(ch) > 0 && ch[len(ch)-1] == 0 {
+				ch = ch[:len(ch)-1]
+			}
+			choices, obs, msg, found = ch, o, vioMsg(x, v), true
+			return true
+		}
+		if x.Panic != "" {
+			return false
+		}
+		cost := 0
+		for i, p := range x.Points {
+			dev := p.Env || p.RunningEnabled
+			if i >= len(prefix) {
+				for alt := 1; alt < p.NEnabled; alt++ {
+					c := cost
+					if dev {
+						c++
+					}
+					if c > b {
+						continue
+					}
+					np := append(append([]int{}, x.Choices()[:i]...), alt)
+					if rec(np, b) {
+						return true
+					}
+				}
+			}
+			if p.Chosen != 0 && dev {
+				cost++
+			}
+		}
+		return false
+	}
+	for b := 0; b <= bound && !found; b++ {
+		rec(nil, b)
+	}
+	return
 }
 
 // stripThreads turns "deadlock: T1@Lock,F1@flusher-idle" into its sorted parts.
